@@ -17,6 +17,16 @@ var e2Weights = map[string]weights{
 		"Incr": 6, "Update": 8, "WriteUpdateWithXattrs": 6, "SetXattrs": 3, "UpdateXattrs": 4, "WriteWithXattrs": 4, "RemoveXattrs": 1,
 		"WriteTombstoneWithXattrs": 2, "WriteResurrectionWithXattrs": 1, "DeleteWithXattrs": 1, "WriteSubDoc": 4, "SubdocInsert": 2,
 		"Touch": 2, "GetAndTouchRaw": 1, "DeleteSubDocPaths": 1, "GetSubDocRaw": 1},
+	// C01: plain reads and writes with expiries, what a reader sees is the last successful write
+	"lin-rw": {"GetRaw": 8, "GetWithXattrs": 4, "Exists": 2, "GetExpiry": 3, "Set": 6, "SetRaw": 3, "Add": 3, "AddRaw": 1, "WriteCas": 8, "Remove": 2, "Delete": 3,
+		"Incr": 2, "Update": 4, "WriteSubDoc": 4, "SubdocInsert": 1, "Touch": 3, "GetAndTouchRaw": 2, "SetXattrs": 1},
+	// C05: deletions and resurrections through every path, observed by every reader
+	"lin-tomb": {"GetRaw": 5, "GetWithXattrs": 6, "Exists": 2, "Delete": 6, "Remove": 3, "WriteTombstoneWithXattrs": 3, "DeleteWithXattrs": 3, "Update": 5,
+		"WriteUpdateWithXattrs": 4, "WriteSubDoc": 6, "SubdocInsert": 2, "WriteCas": 6, "Add": 4, "Set": 3, "SetXattrs": 3, "WriteResurrectionWithXattrs": 2,
+		"WriteWithXattrs": 3, "Incr": 1},
+	// C07: xattr writes against body writes and touches; what is not named must survive
+	"lin-xattr": {"GetWithXattrs": 8, "GetExpiry": 4, "GetRaw": 2, "SetXattrs": 5, "UpdateXattrs": 6, "WriteWithXattrs": 8, "RemoveXattrs": 2, "DeleteSubDocPaths": 2,
+		"WriteUpdateWithXattrs": 5, "Touch": 6, "GetAndTouchRaw": 3, "Set": 4, "WriteCas": 3, "WriteSubDoc": 2, "Delete": 1, "DeleteWithXattrs": 1},
 	// counters and read-modify-write loops only
 	"rmw": {"GetRaw": 3, "Incr": 12, "Update": 10, "WriteUpdateWithXattrs": 6, "Set": 2, "Delete": 1, "WriteSubDoc": 4},
 	// writers for the feed oracles
@@ -132,6 +142,13 @@ func GenE2(prop string, seed uint64) *Program {
 		scenario = []string{"lin", "lin", "rmw"}[r.Intn(3)]
 	case "C04":
 		scenario = "lin"
+	case "C01":
+		scenario = "lin-rw"
+	case "C05":
+		scenario = "lin-tomb"
+	case "C07":
+		scenario = "lin-xattr"
+		nk = 1
 	case "C02":
 		scenario = "casrace"
 		nk = 1
@@ -156,9 +173,16 @@ func GenE2(prop string, seed uint64) *Program {
 	case "C15":
 		scenario = "ckpt"
 		nk = 1 + r.Intn(3)
+		if r.Chance(30) {
+			prog.NColl = 2 // a bucket-level checkpointed feed over both collections
+		}
 	case "C06":
 		scenario = "insert-race"
 		nk = 1
+	case "C11", "C12":
+		scenario = "view-race"
+		prog.NColl = 2
+		nk = 1 + r.Intn(3)
 	case "C13":
 		scenario = "openclose"
 		prog.NHandles = 1
@@ -184,9 +208,39 @@ func GenE2(prop string, seed uint64) *Program {
 	}
 	nt := 2 + r.Intn(3)
 	switch scenario {
-	case "lin", "rmw":
+	case "lin", "rmw", "lin-rw", "lin-tomb", "lin-xattr":
 		g.setupDocs(prog, 60)
 		w := e2Weights[scenario]
+		if scenario == "lin-xattr" && r.Chance(35) {
+			// writes that must keep the expiry as it is at the moment they are applied, racing with touches
+			// (which change the expiry but not the CAS) and with writes that give a new one
+			prog.Setup = append(prog.Setup, Op{Kind: "Set", Key: g.keys[0], Body: strp(g.jsonBody()), ExpKind: 2, ExpVal: uint32(5000 + r.Intn(1000))})
+			for t := 0; t < 1+r.Intn(2); t++ {
+				var op Op
+				switch r.Intn(4) {
+				case 0, 1:
+					op = g.e2op("WriteWithXattrs", prog.NHandles)
+					op.CasMode = "cur"
+				case 2:
+					op = g.e2op("WriteUpdateWithXattrs", prog.NHandles)
+				default:
+					op = g.e2op("Set", prog.NHandles)
+					op.ExpKind = 0
+				}
+				op.Key, op.Coll, op.Preserve = g.keys[0], 0, true
+				prog.Tasks = append(prog.Tasks, []Op{{Kind: "GetWithXattrs", Key: g.keys[0], XNames: append(append([]string{}, allXattrNames...), "$document")}, op})
+			}
+			for t := 0; t < 1+r.Intn(2); t++ {
+				op := g.e2op([]string{"Touch", "Touch", "GetAndTouchRaw"}[r.Intn(3)], prog.NHandles)
+				op.Key, op.Coll = g.keys[0], 0
+				op.ExpKind, op.ExpVal = 2, uint32(7000+r.Intn(1000))
+				if r.Chance(25) {
+					op.ExpKind, op.ExpVal = 0, 0
+				}
+				prog.Tasks = append(prog.Tasks, []Op{op})
+			}
+			break
+		}
 		for t := 0; t < nt; t++ {
 			n := 2 + r.Intn(5)
 			var ops []Op
@@ -194,6 +248,10 @@ func GenE2(prop string, seed uint64) *Program {
 				ops = append(ops, g.e2op(g.weighted(w), prog.NHandles))
 			}
 			prog.Tasks = append(prog.Tasks, ops)
+		}
+		if (scenario == "lin" || scenario == "rmw") && r.Chance(30) {
+			// the process opens (and drops) an unrelated bucket meanwhile: the clock all buckets share must not notice
+			prog.Tasks = append(prog.Tasks, []Op{{Kind: "OpenOther"}})
 		}
 	case "casrace":
 		// every client reads the same version and tries to replace it through its own conditional entry point
@@ -219,7 +277,29 @@ func GenE2(prop string, seed uint64) *Program {
 			prog.Tasks = append(prog.Tasks, ops)
 		}
 	case "subdoc-distinct", "subdoc-mixed":
-		prog.Setup = append(prog.Setup, Op{Kind: "Set", Key: g.keys[0], Body: strp(`{"a":{"b":1},"base":0}`)})
+		switch t := r.Intn(10); {
+		case t < 7:
+			prog.Setup = append(prog.Setup, Op{Kind: "Set", Key: g.keys[0], Body: strp(`{"a":{"b":1},"base":0}`)})
+		case t < 8: // a tombstone
+			prog.Setup = append(prog.Setup, Op{Kind: "Set", Key: g.keys[0], Body: strp(`{"a":{"b":1},"base":0}`)}, Op{Kind: "Delete", Key: g.keys[0]})
+		default: // no document yet: the sub-document writers race with whoever creates it
+		}
+		if len(prog.Setup) != 1 {
+			var ops []Op
+			pick := r.Intn(3)
+			if pick == 1 && scenario == "subdoc-distinct" {
+				pick = 0 // (a plain Set may legitimately overwrite what the sub-document writers did)
+			}
+			switch pick {
+			case 0:
+				ops = append(ops, Op{Kind: "Add", Key: g.keys[0], Body: strp(fmt.Sprintf(`{"a":{"b":3},"made":%d}`, g.uniq())), Handle: r.Intn(prog.NHandles)})
+			case 1:
+				ops = append(ops, Op{Kind: "Set", Key: g.keys[0], Body: strp(fmt.Sprintf(`{"a":{"b":3},"made":%d}`, g.uniq())), Handle: r.Intn(prog.NHandles)})
+			default:
+				ops = append(ops, Op{Kind: "WriteCas", Key: g.keys[0], Body: strp(fmt.Sprintf(`{"a":{"b":3},"made":%d}`, g.uniq())), CasMode: "zero", Handle: r.Intn(prog.NHandles)})
+			}
+			prog.Tasks = append(prog.Tasks, ops)
+		}
 		for t := 0; t < nt; t++ {
 			var ops []Op
 			n := 1 + r.Intn(3)
@@ -266,6 +346,32 @@ func GenE2(prop string, seed uint64) *Program {
 				}
 			}
 			prog.Feeds = append(prog.Feeds, fs)
+		}
+		if r.Chance(35) {
+			// feeds that were registered before the stable ones are stopped while the writers run: the
+			// feeds behind them in the collection's list must still get every event exactly once
+			coll := prog.Feeds[0].Coll
+			for i := range prog.Feeds {
+				if !prog.Feeds[i].Bucket {
+					prog.Feeds[i].Coll = coll
+				}
+			}
+			if len(prog.Feeds) < 2 {
+				prog.Feeds = append(prog.Feeds, FeedSpec{ID: "f9", Handle: r.Intn(prog.NHandles), Coll: coll, Stable: true})
+			}
+			var victims []FeedSpec
+			for i := 0; i < 1+r.Intn(2); i++ {
+				victims = append(victims, FeedSpec{ID: fmt.Sprintf("v%d", i), Handle: r.Intn(prog.NHandles), Coll: coll})
+			}
+			prog.Feeds = append(victims, prog.Feeds...)
+			var ctl []Op
+			for i := range victims {
+				ctl = append(ctl, Op{Kind: "StopFeed", Feed: &victims[i]})
+			}
+			if r.Chance(50) {
+				ctl = append(ctl, g.e2op("Set", prog.NHandles))
+			}
+			prog.Tasks = append(prog.Tasks, ctl)
 		}
 		nt = 1 + r.Intn(3)
 		w := e2Weights["feeds"]
@@ -317,11 +423,18 @@ func GenE2(prop string, seed uint64) *Program {
 		}
 		var ctl []Op
 		runs := 1 + r.Intn(3)
+		bucketLevel := prog.NColl > 1
+		extras := r.Chance(40)
 		for i := 1; i <= runs; i++ {
-			fs := FeedSpec{ID: "ck", Handle: r.Intn(prog.NHandles), Coll: 0, Backfill: "resume", Ckpt: "cp", Run: i}
+			fs := FeedSpec{ID: "ck", Handle: r.Intn(prog.NHandles), Coll: 0, Backfill: "resume", Ckpt: "cp", Run: i, Bucket: bucketLevel}
 			ctl = append(ctl, Op{Kind: "StartFeed", Feed: &fs})
-			if r.Chance(50) {
-				ctl = append(ctl, g.e2op("Set", prog.NHandles))
+			if extras && r.Chance(60) {
+				// an unrelated live feed registered behind this run (and behind the dead earlier runs)
+				x := FeedSpec{ID: fmt.Sprintf("x%d", i), Handle: r.Intn(prog.NHandles), Coll: 0}
+				ctl = append(ctl, Op{Kind: "StartFeed", Feed: &x})
+			}
+			for j := r.Intn(4); j > 0; j-- {
+				ctl = append(ctl, g.e2op(g.weighted(w), prog.NHandles))
 			}
 			ctl = append(ctl, Op{Kind: "StopFeed", Feed: &fs}, Op{Kind: "WaitFeed", Feed: &fs}, Op{Kind: "GetRaw", Key: "cp:ck"})
 		}
@@ -414,6 +527,51 @@ func GenE2(prop string, seed uint64) *Program {
 			ops = append(ops, op, Op{Kind: "GetRaw", Key: g.keys[0]})
 			prog.Tasks = append(prog.Tasks, ops)
 		}
+	case "view-race":
+		// two collections hold the same keys with disjoint values; a view of collection 0 is queried
+		// while design documents of either collection are deleted and (re-)created and documents change
+		prog.NoLin, prog.NoFeedOracle = true, true
+		for c := 0; c < 2; c++ {
+			for i, k := range g.keys {
+				prog.Setup = append(prog.Setup, Op{Kind: "Set", Coll: c, Key: k, Body: strp(fmt.Sprintf(`{"v":%d}`, 1000*(c+1)+i))})
+			}
+		}
+		f1 := map[string]string{"v1": "F1"}
+		prog.Setup = append(prog.Setup, Op{Kind: "PutDDoc", Coll: 0, Key: "dd1", Xattrs: f1}, Op{Kind: "View", Coll: 0, Key: "dd1", Path: "v1", Body: strp(`{"stale":false}`)})
+		if r.Chance(40) {
+			prog.Setup = append(prog.Setup, Op{Kind: "PutDDoc", Coll: 1, Key: "dd0", Xattrs: f1}, Op{Kind: "View", Coll: 1, Key: "dd0", Path: "v1", Body: strp(`{"stale":false}`)})
+		}
+		query := func(c int, dd string) Op {
+			return Op{Kind: "View", Coll: c, Key: dd, Path: "v1", Handle: r.Intn(prog.NHandles), Body: strp([]string{`{"stale":false}`, `{"stale":false}`, `{"stale":"ok"}`}[r.Intn(3)])}
+		}
+		for t := 0; t < 1+r.Intn(2); t++ {
+			var ops []Op
+			for i := 0; i < 1+r.Intn(3); i++ {
+				ops = append(ops, query(0, "dd1"))
+			}
+			prog.Tasks = append(prog.Tasks, ops)
+		}
+		var ch []Op
+		switch r.Intn(3) {
+		case 0: // the queried view disappears, another collection gets a new one
+			ch = append(ch, Op{Kind: "DelDDoc", Coll: 0, Key: "dd1", Handle: r.Intn(prog.NHandles)},
+				Op{Kind: "PutDDoc", Coll: 1, Key: "dd1", Xattrs: f1, Handle: r.Intn(prog.NHandles)}, query(1, "dd1"))
+		case 1: // the queried design document is replaced by an identical one
+			ch = append(ch, Op{Kind: "PutDDoc", Coll: 0, Key: "dd1", Xattrs: map[string]string{"v1": "F1", "v2": "F0"}, Handle: r.Intn(prog.NHandles)},
+				Op{Kind: "PutDDoc", Coll: 1, Key: "dd2", Xattrs: f1, Handle: r.Intn(prog.NHandles)}, query(1, "dd2"))
+		default: // only the other collection changes
+			ch = append(ch, Op{Kind: "PutDDoc", Coll: 1, Key: "dd1", Xattrs: f1, Handle: r.Intn(prog.NHandles)}, query(1, "dd1"),
+				Op{Kind: "DelDDoc", Coll: 1, Key: "dd1", Handle: r.Intn(prog.NHandles)})
+		}
+		prog.Tasks = append(prog.Tasks, ch)
+		if r.Chance(60) {
+			var wr []Op
+			for i := 0; i < 1+r.Intn(3); i++ {
+				c := r.Intn(2)
+				wr = append(wr, Op{Kind: "Set", Coll: c, Key: g.keys[r.Intn(len(g.keys))], Handle: r.Intn(prog.NHandles), Body: strp(fmt.Sprintf(`{"v":%d}`, 1000*(c+1)+100+g.uniq()))})
+			}
+			prog.Tasks = append(prog.Tasks, wr)
+		}
 	case "rev-race":
 		g.setupDocs(prog, 80)
 		w := weights{"Touch": 10, "GetAndTouchRaw": 4, "Set": 6, "SetXattrs": 4, "Incr": 2, "Delete": 2, "Add": 2, "UpdateXattrs": 2, "WriteCas": 3, "DeleteSubDocPaths": 1, "GetWithXattrs": 2}
@@ -471,8 +629,10 @@ func GenE2(prop string, seed uint64) *Program {
 		g.p.ExpPct = 60
 		g.setupDocs(prog, 50)
 		// documents with near deadlines so that the expiry timer is armed (and fires while clients sleep)
-		for i, k := range g.keys {
-			prog.Setup = append(prog.Setup, Op{Kind: "Set", Key: k, Coll: 0, Body: strp(fmt.Sprintf(`{"e":%d}`, i)), ExpKind: 2, ExpVal: uint32(1 + r.Intn(4))})
+		if r.Chance(70) { // (otherwise the expiry timer has never been armed when the shutdown begins)
+			for i, k := range g.keys {
+				prog.Setup = append(prog.Setup, Op{Kind: "Set", Key: k, Coll: 0, Body: strp(fmt.Sprintf(`{"e":%d}`, i)), ExpKind: 2, ExpVal: uint32(1 + r.Intn(4))})
+			}
 		}
 		if r.Chance(60) {
 			fs := FeedSpec{ID: "f0", Handle: r.Intn(prog.NHandles), Coll: 0}
